@@ -4,6 +4,7 @@ from __future__ import annotations
 import ast
 import copy
 import json
+import os
 import re
 from pathlib import Path
 
@@ -768,6 +769,129 @@ THEOREMS = ["C02.C02_class", "C02.C02_pydantic", "C02.C02_function", "C02.C02_ar
             "C02.function_exponent_float_kept"]
 
 
+# ----------------------------------------------------------------------------------------------------------------------
+# the concrete ReST docstring layer of Properties/C02Rest.lean (Model/IfaceRestEnv.lean: restEnv) against the real emitter and readers
+# ----------------------------------------------------------------------------------------------------------------------
+def _rl_lean_str(s):
+    out = '"'
+    for ch in s:
+        out += '\\"' if ch == '"' else '\\\\' if ch == '\\' else '\\n' if ch == '\n' else ch
+    return out + '"'
+
+
+def _rl_default(d):
+    if d is None:
+        return "none"
+    if isinstance(d, bool):
+        return "some (.val (.bool %s))" % ("true" if d else "false")
+    if isinstance(d, int):
+        return "some (.val (.int (%d)))" % d
+    if isinstance(d, float):
+        return "some (.val (.float %s))" % _rl_lean_str(repr(d))
+    return "some (.val (.str %s))" % _rl_lean_str(d)
+
+
+def _rl_param(p):
+    return "{ doc := %s, typ := %s, default := %s }" % ("some " + _rl_lean_str(p["doc"]) if "doc" in p else "none", "some " + _rl_lean_str(p["typ"]) if "typ" in p else "none", _rl_default(p.get("default")))
+
+
+def _rl_esc(s):
+    return s.replace("\\", "\\\\").replace("\n", "\\n")
+
+
+def rest_layer_stream(chk, rng):
+    """docEmitL of restEnv (incl. the ports of the purpose=class emitter and of the indent stage) = cdd.docstring.emit.docstring, character for character, wherever the
+    model answers; the comparison runs the model through `lake env lean --run` on a generated Main (the op is not part of the compiled driver)"""
+    import subprocess
+    from collections import OrderedDict
+    from copy import deepcopy
+
+    from cdd.docstring.emit import docstring
+
+    words = ["step size", "rounds", "be loud", "the seed", "first one", "a colon: here", "with (parens)", "ends with dot.", "ends with comma,", "two  spaces", "x"]
+    headers = ["", "Fit.", "Train the model", "Line one\nline two", "A: b (c)", "Ends.  "]
+    names = ["lr", "n", "v", "seed", "data_path", "x1", "alpha_beta"]
+    types = [None, "int", "float", "bool", "str", "Optional[int]", "List[str]", "np.ndarray", "Union[int, float]"]
+    defaults = [None, 0, 10, -3, 0.5, 2.0, True, False, "abc", "", "```(None)```", "```foo(3)```"]
+    cases = []
+    for _ in range(120 if chk.quick else 600):
+        params = OrderedDict()
+        for n in rng.sample(names, rng.choice([1, 1, 2, 3])):
+            p = {}
+            if rng.random() < 0.9:
+                p["doc"] = rng.choice(words)
+            t = rng.choice(types)
+            if t:
+                p["typ"] = t
+            d = rng.choice(defaults)
+            if d is not None and rng.random() < 0.6:
+                p["default"] = d
+            params[n] = p
+        ret = None
+        if rng.random() < 0.4:
+            r_ = {"doc": rng.choice(words)}
+            t = rng.choice(types)
+            if t:
+                r_["typ"] = t
+            ret = OrderedDict([("return_type", r_)])
+        ir = {"name": "F", "type": "static", "doc": rng.choice(headers), "params": params, "returns": ret}
+        cfg = dict(purpose="class" if rng.random() < 0.4 else "function", indent_level=rng.choice([0, 1, 2]), emit_separating_tab=rng.random() < 0.5, emit_types=rng.random() < 0.5,
+                   emit_default_doc=rng.random() < 0.5)
+        try:
+            real = docstring(deepcopy(ir), docstring_format="rest", word_wrap=True, **cfg)
+        except Exception:  # noqa
+            real = None
+        cases.append((ir, cfg, real))
+    L = ["import CddVerif.Model.IfaceRestEnv", "open Iface IfaceRest",
+         "def esc (s : String) : String := s.foldl (fun acc c => if c == '\\n' then acc ++ \"\\\\n\" else if c == '\\\\' then acc ++ \"\\\\\\\\\" else acc.push c) \"\"",
+         "def run (i : Nat) (c : DocEmitCfg) (ir : IR) : IO Unit := do",
+         "  match docEmitL c ir with",
+         "  | .ok t => IO.println s!\"E {i} OK {esc (String.ofList t)}\"",
+         "  | .outside w => IO.println s!\"E {i} OUTSIDE {w}\"",
+         "def main : IO Unit := do"]
+    for i, (ir, cfg, real) in enumerate(cases):
+        params = "[" + ", ".join("(%s, %s)" % (_rl_lean_str(n), _rl_param(p)) for n, p in ir["params"].items()) + "]"
+        ret = "none" if ir["returns"] is None else "some " + _rl_param(ir["returns"]["return_type"])
+        irs = "{ name := some \"F\", doc := %s, params := %s, returns := %s }" % (_rl_lean_str(ir["doc"]), params, ret)
+        cfgs = "{ style := .rest, emitDefaultDoc := %s, emitTypes := %s, purposeClass := %s, indentLevel := %d, emitSeparatingTab := %s }" % (
+            str(cfg["emit_default_doc"]).lower(), str(cfg["emit_types"]).lower(), str(cfg["purpose"] == "class").lower(), cfg["indent_level"], str(cfg["emit_separating_tab"]).lower())
+        L.append("  run %d %s %s" % (i, cfgs, irs))
+    d = core.VERIF / ".scratch" / ("c02rest_%d" % os.getpid())
+    d.mkdir(parents=True, exist_ok=True)
+    try:
+        (d / "Main.lean").write_text("\n".join(L) + "\n")
+        try:
+            pr = subprocess.run(["lake", "env", "lean", "--run", str(d / "Main.lean")], cwd=str(core.LEAN), stdout=subprocess.PIPE, stderr=subprocess.PIPE, text=True, timeout=900)
+        except subprocess.TimeoutExpired:
+            raise core.HarnessError("the ReST-layer model run did not finish in 900 s")
+        if pr.returncode != 0:
+            chk.oblige("correspondence: restEnv.docEmitL = cdd.docstring.emit.docstring", "correspondence", False, "the model run failed: %s" % (pr.stderr or pr.stdout)[-800:])
+            return
+        n_ok = n_out = n_dis = 0
+        for line in pr.stdout.split("\n"):
+            parts = line.split(" ", 3)
+            if len(parts) < 3 or parts[0] != "E":
+                continue
+            ir, cfg, real = cases[int(parts[1])]
+            chk.count(("restlayer", json.dumps([ir, cfg], sort_keys=True, default=dict)), parts[2] == "OK" and real is not None)
+            if parts[2] != "OK" or real is None:
+                n_out += 1
+                continue
+            got = parts[3] if len(parts) > 3 else ""
+            if got == _rl_esc(real):
+                n_ok += 1
+            else:
+                n_dis += 1
+                chk.disagreement("C02 correspondence: restEnv.docEmitL (ReST docstring layer of C02Rest) vs cdd.docstring.emit.docstring", {"ir": json.loads(json.dumps(ir, default=dict)), "cfg": cfg}, _rl_esc(real), got)
+        chk.coverage["rest_layer_emit"] = {"agree": n_ok, "model_abstains_or_real_raises": n_out, "disagree": n_dis}
+        chk.oblige("correspondence: restEnv.docEmitL (purpose class/function, indent 0-2, separating tab, types, defaults) = cdd.docstring.emit.docstring on %d docstrings (%d abstentions)" % (n_ok + n_dis, n_out),
+                   "correspondence", n_dis == 0 and n_ok > 20, "%d disagreements" % n_dis)
+    finally:
+        import shutil as _sh
+
+        _sh.rmtree(d, ignore_errors=True)
+
+
 def run(chk: core.Check) -> int:
     import collections
 
@@ -776,7 +900,7 @@ def run(chk: core.Check) -> int:
                             "purpose=class emitter and the indent stage of docstring()); on the decidable region InRest (ReST, emit_default_doc=False, one-line header, C01Whole.InDomain of the converted interface, "
                             "no prose type triggers; class/pydantic without return entry; argparse without return default) the four round-trip theorems hold with NO hypothesis about the docstring layer "
                             "(C02Rest_class/_pydantic/_function/_argparse); CPython's expression parser stays the parameter pyExpr; outside InRest (Google/NumPy styles, emit_default_doc=True, multi-line headers) "
-                            "the layer remains a parameter whose answers the harness evaluates per case; the composed model was compared with the real emitter/readers by hand only (0 differences inside InRest)")
+                            "the layer remains a parameter whose answers the harness evaluates per case; the composed model's EMITTER (docEmitL incl. the class-purpose and indent ports) is compared with cdd.docstring.emit.docstring on every run through `lean --run`; its readers were compared with the real ones by hand only (0 differences inside InRest)")
     chk.trusted_base += [
         "model lean/CddVerif/Model/Iface{IR,Emit,Parse,Domain}.lean: the four emitters, the render/re-read step (negative numbers become UnaryOp) and the three parsers, ported decision by decision; tied to /repo by comparing, per case, the emitted AST (shared flat AST with ast.unparse texts and a structured form), the re-parsed AST and the parsed IR",
         "the docstring layer (cdd.docstring.emit/parse, extract_default, parse_adhoc_doc_for_typ — property C01) and CPython's expression parser are PARAMETERS of the model (Iface.Env); the theorems assume the stated decidable hypotheses about their answers (Iface.docHyp); the driver evaluates those hypotheses on the real layer's answers for every case and the evidence counts how often they hold",
@@ -952,6 +1076,9 @@ def run(chk: core.Check) -> int:
     chk.coverage["real_round_trip_failure_signatures"] = dict(sorted(sig_counts.items()))
     chk.coverage["theorem_instances"] = {"cases in D02": n_in, "cases with the docstring-layer hypotheses true": n_hyp, "both (theorem applies)": n_thm,
                                          "primitive comparisons": n_prim}
+    import random as _random
+
+    rest_layer_stream(chk, _random.Random(chk.seed * 7919 + 2))
     return chk.finish("generated signature-legal interfaces (0-5 parameters; scalar / complex / Optional / Union / Optional[Union] / List / Literal / dotted types; int, float, bool, str, "
                       "complex, None and code defaults with ~45 % falsy values; return entries with and without a source default; static / self / cls) x 4 formats x 3 docstring styles x "
                       "emit_default_doc x (type annotations, kw-only) for functions: real emit -> to_code -> ast.parse -> real parse; oracle = names, order, types, typed defaults, "
